@@ -18,6 +18,8 @@
       Kolmogorov-Smirnov ops 5, 8, 10: sorted sample, a distance within the DKW bound that bounds every term
       (op 8 against the exact pw_cdf; op 10 against harness-reported cdf values; op 5: D itself is harness-computed).
       Theorems check_C07_op3/9/5/8/10_sound, together check_C07_other_ops_sound.
+   E. op 11 (InvCDF of UDist against udist_cdf, the exact model of C02, in doubled units): same shape as ops 1 / 2.
+      Theorem check_C07_op11_sound.
    With this every op of check_C07 has a soundness reading.
    Everything is over Z/Q/lists and closed under the global context. *)
 From MM Require Import Base.Num Base.GFSum Base.GFComb Model.Choose Model.Binom Model.Hyperg Model.InvCDF.
@@ -1064,4 +1066,86 @@ Theorem check_C07_other_ops_sound :
 Proof.
   exact (conj check_C07_op3_sound (conj check_C07_op9_sound (conj check_C07_op5_sound
         (conj check_C07_op8_sound check_C07_op10_sound)))).
+Qed.
+
+(* ====================== E. op 11: InvCDF (UDist{N1, N2, T}) against the exact model of C02 ======================
+   The support of U is 0, 1/2, ..., N1*N2; the comparison is made in DOUBLED units: support points k = 0 .. 2 N1 N2,
+   F k := udist_cdf N1 N2 T (k/2) (Model/Udist.v — the exact model of C02: by C02_cdf_tied / C02_cdf_untied it is
+   #{N1-subsets of the pooled sample with 2U <= k} / C(N1+N2, N1)), and the levels are read with the observed value
+   doubled ([udouble_items], Check/C07.v).  Same shape as ops 1 / 2: complete parse, parameter range, every doubled
+   level satisfies disc_level_spec F 0 (2 N1 N2), the results are ordered, and with verdict code 0 floor(2 obs)/2 IS
+   the least support point with CDF >= y. *)
+From MM Require Spec.Ucount Proofs.Ucount Model.Udist Proofs.UdistLaws Proofs.UdistUntied Proofs.UdistCor Check.C02 Proofs.CheckC02.
+
+Lemma disc_table_length : forall cdf cnt k, length (disc_table cdf k cnt) = cnt.
+Proof. intros cdf. induction cnt as [|cnt IH]; intro k; cbn [disc_table length]; [reflexivity|]. rewrite IH. reflexivity. Qed.
+
+Lemma udist_cdf_mono n1 n2 T :
+  C02.valid_T n1 n2 (match T with [] => true | _ => false end) T = true ->
+  forall u u', u <= u' -> Udist.udist_cdf n1 n2 T u <= Udist.udist_cdf n1 n2 T u'.
+Proof.
+  intros V u u' Hu. apply CheckC02.valid_T_sound in V. destruct V as (H1 & H2 & H3).
+  destruct (Udist.has_ties T) eqn:HT.
+  - destruct T as [|t T']; [cbn in HT; discriminate HT|]. destruct H3 as (L & Fa & Su).
+    apply (UdistCor.cdf_monotone_tied Nat.compare n1 n2 (t :: T') (Spec.Ucount.rank_pool (rev (t :: T')))).
+    + repeat split; assumption.
+    + exact HT.
+    + apply MM.Proofs.Ucount.rank_pool_grouped.
+    + exact Hu.
+  - apply (UdistCor.cdf_monotone_untied Nat.compare n1 n2 T (Spec.Ucount.rank_pool (UdistUntied.ones (n1 + n2)))).
+    + exact H1.
+    + exact H2.
+    + exact HT.
+    + apply MM.Proofs.Ucount.rank_pool_grouped.
+    + intros a b. apply Nat.compare_antisym.
+    + exact Hu.
+Qed.
+
+Theorem check_C07_op11_sound : forall rest c tag pos diag,
+  check_C07 (7 :: 11 :: rest)%Z = verdict c tag pos diag -> (c = 0 \/ c = 1)%Z ->
+  exists n1 n2 T items,
+    (do n1 <- pnat; do n2 <- pnat; do T <- plist pnat; do items <- plist p_item; pend (n1, n2, T, items)) rest
+      = Some ((n1, n2, T, items), []) /\
+    CheckC02.tie_vector_ok n1 n2 (match T with [] => true | _ => false end) T /\ (n1 + n2 <= 10)%nat /\ (n1 * n2 <= 25)%nat /\
+    let F := fun k : Z => Udist.udist_cdf n1 n2 T (inject_Z k / 2) in
+    let hi := (2 * Z.of_nat (n1 * n2))%Z in
+    Forall (disc_level_spec F 0 hi) (udouble_items items) /\
+    levels_ordered (udouble_items items) /\
+    (c = 0%Z -> Forall (disc_level_exact F 0 hi) (udouble_items items)).
+Proof.
+  intros rest c tag pos diag E Hc. cbn [check_C07] in E.
+  destruct ((do n1 <- pnat; do n2 <- pnat; do T <- plist pnat; do items <- plist p_item; pend (n1, n2, T, items)) rest)
+    as [[[[[n1 n2] T] items] tl]|] eqn:P.
+  2: { exfalso. apply verdict_inj in E. unfold V_MALFORMED in E. lia. }
+  assert (TL : tl = []).
+  { clear E. repeat (apply pbind_some in P; destruct P as (? & ? & _ & P)). apply pend_some in P. tauto. }
+  subst tl.
+  destruct (udist_params_ok n1 n2 T) eqn:V; cbn [negb] in E.
+  2: { exfalso. apply verdict_inj in E. unfold V_MALFORMED in E. lia. }
+  unfold udist_params_ok in V. apply andb_prop in V. destruct V as [V V3]. apply andb_prop in V. destruct V as [V1 V2].
+  apply Nat.leb_le in V2, V3.
+  cbv zeta in E.
+  set (hi := (2 * Z.of_nat (n1 * n2))%Z) in *.
+  set (F := fun k : Z => Udist.udist_cdf n1 n2 T (inject_Z k / 2)).
+  set (tab := cdf_table (ucdf2 n1 n2 T) 0 (Z.to_nat (hi + 1))) in E.
+  assert (Hhi : (0 <= hi)%Z) by (unfold hi; lia).
+  assert (HT : tab_is F 0 tab).
+  { unfold tab, cdf_table. apply disc_table_is. intro k. unfold ucdf2, F. reflexivity. }
+  assert (HL : Z.of_nat (length tab) = (hi - 0 + 1)%Z).
+  { unfold tab, cdf_table. rewrite disc_table_length. lia. }
+  assert (Htop : F hi == 1).
+  { unfold F. apply UdistCor.cdf_one_from_top. unfold Udist.QN, hi. rewrite inject_Z_mult.
+    change (inject_Z 2) with 2. set (m := inject_Z (Z.of_nat (n1 * n2))).
+    assert (X : 2 * m / 2 == m) by field. rewrite X. apply Qle_refl. }
+  assert (Hm : forall k k', (0 <= k)%Z -> (k <= k')%Z -> (k' <= hi)%Z -> F k <= F k').
+  { intros k k' _ Hk _. unfold F. apply (udist_cdf_mono n1 n2 T V1). unfold Qdiv.
+    apply Qmult_le_compat_r; [rewrite <- Zle_Qle; exact Hk|]. unfold Qle. cbn. lia. }
+  assert (E' : (if negb (Z.of_nat (length tab) =? hi - 0 + 1)%Z then verdict V_MALFORMED 0 (-1) [98%Z]
+                else C07.finish (with_mono 0 (udouble_items items) (run_disc_items tab 0 hi (udouble_items items) 0 0)))
+               = verdict c tag pos diag).
+  { rewrite (proj2 (Z.eqb_eq _ _) HL). exact E. }
+  destruct (disc_accepted F 0 hi tab (hi - 0 + 1) (udouble_items items) c tag pos diag HT eq_refl Hhi Htop Hm E' Hc) as (S1 & S2 & S3).
+  exists n1, n2, T, items. split; [reflexivity|]. split; [apply CheckC02.valid_T_sound; exact V1|].
+  split; [exact V2|]. split; [exact V3|]. cbv zeta. fold F. fold hi.
+  split; [exact S1|]. split; [exact S2|exact S3].
 Qed.
